@@ -330,3 +330,5 @@ func (b *rabBackend) dealerSecretCommitOK() (bool, bool) {
 	cs := b.dealer.Commits()
 	return true, sc.Equal(want) && len(cs) > 0 && cs[0].Equal(want)
 }
+
+func (b *rabBackend) contentSID(d *mdeal) []byte { return vssContentSID(b.suite, b.dpub, b.vpubs, d) }
